@@ -50,6 +50,7 @@ package conc
 //@   opt frame = skip
 //@   requires ctx != nil
 //@   ensures source: result != nil ==> cancelled(ctx) || recvs(errCh) > old(recvs(errCh))
+//@   ensures nilonlyidle: result == nil ==> idle
 //@   loop 1 invariant counts: recvs(errCh) >= old(recvs(errCh))
 //@   assert select 1: selects(wait) && selects(done(ctx)) && selects(errCh) && wait != nil && issuedBy(wait) == s.bcast && gettime(wait) == lastcs()
 //
@@ -73,7 +74,11 @@ package conc
 //
 //@ closure (*ConcurrentQueue).updateLocked
 //@   props C18
-//@   loop 1 invariant inv: s.jobQueue != nil && objinv(s.jobQueue) && s.jobQueueSize == s.jobQueue.hi - s.jobQueue.lo && (s.maxConcurrency > 0 ==> s.running <= s.maxConcurrency) && s.enq - s.done <= s.jobQueueSize + s.running
+//@   loop 1 invariant list: s.jobQueue != nil && objinv(s.jobQueue)
+//@   loop 1 invariant size: s.jobQueueSize == s.jobQueue.hi - s.jobQueue.lo
+//@   loop 1 invariant limit: s.maxConcurrency > 0 ==> s.running <= s.maxConcurrency
+//@   loop 1 invariant accepted: s.enq - s.done <= s.jobQueueSize + s.running
+//@   loop 1 invariant conserve: s.running + s.jobQueueSize == csold(s.running) + csold(s.jobQueueSize) && s.jobQueueSize >= 0 && s.running >= csold(s.running)
 //
 //@ func (*ConcurrentQueue).executeJob
 //@   props C18 C13
@@ -85,6 +90,16 @@ package conc
 //@   props C18
 //@   ghost exit: s.done := s.done + 1
 //
-// NewConcurrentQueue (the constructor with initial elements) is not under contract: that a freshly built
-// queue satisfies J0..J4 is assumed (listed in the evidence).
-//@ assume-note conc.NewConcurrentQueue establishes the ConcurrentQueue invariants (constructor not verified)
+// The constructor: the new queue holds the initial elements, counts them as accepted, and starts
+// min(limit, len) workers through updateLocked in its first critical section.
+//
+//@ func NewConcurrentQueue
+//@   props C18
+//@   opt frame = skip
+//@   opt constructor = ConcurrentQueue
+//@   ensures built: result != nil
+//@   ensures empty: len(initialElems) == 0 ==> objinv(result) && result.enq - result.done <= 0
+//
+//@ closure NewConcurrentQueue$1
+//@   props C18
+//@   ghost entry: str.enq := str.jobQueueSize
